@@ -227,9 +227,69 @@ def load_corpus_pool():
     return out
 
 
+def loops_with_breaks(d):
+    """[(event types of the loop body, event types that occur only on a break branch)] for every loop of d"""
+    out = []
+
+    def brk(seq):
+        res = []
+        for it in seq:
+            if it[0] == "fork":
+                for b in it[2]:
+                    if b and b[-1] == ("break",) or (b and tuple(b[-1]) == ("break",)):
+                        res += P.events_of(b)
+                    else:
+                        res += brk(b)
+        return res
+
+    def go(seq):
+        for it in seq:
+            if it[0] == "fork":
+                for b in it[2]:
+                    go(b)
+            elif it[0] == "loop":
+                bs = brk(it[1])
+                if bs:
+                    out.append((set(P.events_of(it[1])), set(bs)))
+                go(it[1])
+    go(d)
+    return out
+
+
+def break_only_subset(rec, jobs):
+    """the jobs in which every loop that has a break branch is, when entered, seen leaving through a break (evidence of a
+    retry loop that always ends by its break); None when that is not a proper, non-empty subset"""
+    lw = loops_with_breaks(rec["d"])
+    if not lw:
+        return None
+    sub = []
+    for j in jobs:
+        ts = {t for t, _ in j}
+        if all((not (body & ts)) or (bs & ts) for body, bs in lw):
+            sub.append(j)
+    return sub if 0 < len(sub) < len(jobs) else None
+
+
+def loop_ends_fork_branch(d):
+    """a loop with a break branch is the last element of an AND/OR fork branch"""
+    for it in d:
+        if it[0] == "fork":
+            for b in it[2]:
+                if it[1] in ("AND", "OR") and b and b[-1][0] == "loop" and loops_with_breaks([b[-1]]):
+                    return True
+                if loop_ends_fork_branch(b):
+                    return True
+        elif it[0] == "loop" and loop_ends_fork_branch(it[1]):
+            return True
+    return False
+
+
 def build_items(out, prop, n_quick, variants=(0,), subsets=False, with_multi_start=False, with_corpus=True):
     pool = load_pool()
     recs = select(pool, out.seed, out.tier, n_quick)
+    if subsets:     # always: the pool definitions in which a loop with a break branch ends an AND/OR fork branch
+        have = {r["id"] for r in recs}
+        recs = recs + [r for r in pool if r["id"] not in have and loop_ends_fork_branch(r["d"])]
     if with_corpus:
         recs = recs + load_corpus_pool()
     items = []
@@ -242,6 +302,10 @@ def build_items(out, prop, n_quick, variants=(0,), subsets=False, with_multi_sta
             sub = [j for j in jobs if rnd.random() < 0.6] or jobs[:1]
             if len(sub) < len(jobs):
                 items.append(dict(rec=dict(rec, id=rec["id"] + "-sub"), jobs=sub, variant=0, subset=True))
+        if subsets and not rec.get("corpus"):
+            brk = break_only_subset(rec, jobs)
+            if brk:
+                items.append(dict(rec=dict(rec, id=rec["id"] + "-brk"), jobs=brk, variant=0, subset=True))
         if with_multi_start:
             ms = multi_start(rec)
             if ms:
